@@ -40,7 +40,7 @@ pub struct Prop {
 
 pub fn registry() -> Vec<Prop> {
     vec![
-        Prop { id: "C01", run: p_c01::run, tape_len: 150, enumerate: None },
+        Prop { id: "C01", run: p_c01::run, tape_len: 240, enumerate: None },
         Prop { id: "C02", run: p_c02::run, tape_len: 150, enumerate: None },
         Prop { id: "C03", run: p_c03::run, tape_len: 150, enumerate: None },
         Prop { id: "C04", run: p_auto::run_c04, tape_len: 160, enumerate: Some(p_auto::enumerate_c04) },
